@@ -9,6 +9,7 @@ import (
 	"github.com/welllog/golib/listz"
 	"pgregory.net/rapid"
 
+	"verif/harness/internal/g"
 	"verif/harness/internal/pb"
 )
 
@@ -356,6 +357,7 @@ func runDList(c dlistCase, r *pb.Rec) error {
 type slop struct {
 	K    int
 	I, J int
+	X, Y int // != 0: the index i (j) is g.ExtremeInts[X-1] (Y-1) instead: limits of int, 32-bit width and sign boundaries
 }
 
 const (
@@ -382,7 +384,12 @@ func genSList(t *rapid.T) slistCase {
 	kinds := []int{sGet, sRemove, sRemove, sRemove, sRemoveFront, sRemoveFront, sPushFront, sPushBack, sInsertAt, sInsertAt, sPushFrontNode, sPushBackNode, sInsertNodeAt, sSwap}
 	n := rapid.IntRange(1, 50).Draw(t, "nops")
 	for i := 0; i < n; i++ {
-		c.Ops = append(c.Ops, slop{K: rapid.SampledFrom(kinds).Draw(t, "op"), I: rapid.IntRange(-2, 8).Draw(t, "i"), J: rapid.IntRange(-2, 8).Draw(t, "j")})
+		o := slop{K: rapid.SampledFrom(kinds).Draw(t, "op"), I: rapid.IntRange(-2, 8).Draw(t, "i"), J: rapid.IntRange(-2, 8).Draw(t, "j")}
+		if rapid.IntRange(0, 7).Draw(t, "extreme") == 0 {
+			o.X = rapid.IntRange(0, len(g.ExtremeInts)).Draw(t, "x")
+			o.Y = rapid.IntRange(0, len(g.ExtremeInts)).Draw(t, "y")
+		}
+		c.Ops = append(c.Ops, o)
 	}
 	return c
 }
@@ -422,6 +429,10 @@ func runSList(c slistCase, r *pb.Rec) error {
 		idx := o.I
 		if idx > 2 { // keep sizes small: large indices are relative to the end
 			idx = len(model) + (o.I - 5)
+		}
+		if o.X > 0 && o.X <= len(g.ExtremeInts) {
+			idx = g.ExtremeInts[o.X-1]
+			r.Class("index at a limit of int / 32-bit boundary")
 		}
 		in := idx >= 0 && idx < len(model)
 		edge := len(model) <= 2 && (idx == 0 || idx == len(model)-1)
@@ -489,6 +500,9 @@ func runSList(c slistCase, r *pb.Rec) error {
 			if j > 2 {
 				j = len(model) + (o.J - 5)
 			}
+			if o.Y > 0 && o.Y <= len(g.ExtremeInts) {
+				j = g.ExtremeInts[o.Y-1]
+			}
 			l.Swap(idx, j)
 			if in && j >= 0 && j < len(model) {
 				model[idx], model[j] = model[j], model[idx]
@@ -541,7 +555,7 @@ func init() {
 		Required: []string{"insert with stale/foreign mark", "move with stale/foreign node", "remove of stale/foreign node", "list copied onto itself", "node pushed", "Init", "zero-value list", "move relative to itself"},
 		Rule:     "<= 60 operations over two DLists (zero value or NewDoubly) in lock step with two container/list lists: every exported method, handles drawn from live nodes of either list and removed nodes, Push*Node/InsertNode* with fresh or removed nodes only, PushBackDList/PushFrontDList with self and other, Init (handles dropped); oracle after every step: values forward/backward/All, Len, nil-ness of returned nodes, Remove's value, Next/Prev of every handle; non-trivial = Move*/Insert* with a stale or foreign handle or a list copied onto itself"},
 		genDList, runDList)
-	pb.Register("slist_sequence", pb.Options{Base: 10000, Required: []string{"remove at first/last of a tiny list", "index clamped", "zero-value list"},
-		Rule: "<= 50 operations on an SList (sizes kept small): Get/Remove/RemoveFront/PushFront/PushBack/InsertAt/Push*Node/InsertNodeAt (fresh or removed nodes)/Swap with indices -2..len+3; oracle: slice model; Front/Back/Len/Next-traversal/All after every step; non-trivial = Remove/Insert at index 0 or len-1 of a list of size <= 2"},
+	pb.Register("slist_sequence", pb.Options{Base: 10000, Required: []string{"remove at first/last of a tiny list", "index clamped", "zero-value list", "index at a limit of int / 32-bit boundary"},
+		Rule: "<= 50 operations on an SList (sizes kept small): Get/Remove/RemoveFront/PushFront/PushBack/InsertAt/Push*Node/InsertNodeAt (fresh or removed nodes)/Swap with indices -2..len+3 and (one operation in eight) at the limits of int and the 32-bit boundaries; oracle: slice model; Front/Back/Len/Next-traversal/All after every step; non-trivial = Remove/Insert at index 0 or len-1 of a list of size <= 2"},
 		genSList, runSList)
 }
